@@ -19,6 +19,7 @@ import itertools
 import re
 
 from mc.gen import ex_schemas as S
+from mc.gen import ex_families as X
 from mc.gen import ex_varmatrix as V
 from mc.gen import mutations as M
 from mc.gen import operations as O
@@ -92,6 +93,10 @@ def cases(tier):
             cnt = len(gen(name).sets(S.SCHEMAS[name][root], n, 3))
             for idx in range(cnt):
                 yield {"k": "valid-base", "t": tier, "schema": name, "root": root, "n": n, "idx": idx}
+    for fam in X.FAMILIES:
+        n = sum(1 for _ in X.FAMILIES[fam]())
+        for j in range(0, n, 24):
+            yield {"k": "family", "t": tier, "family": fam, "from": j, "to": min(n, j + 24)}
     for placement in V.PLACEMENTS:
         n = sum(1 for _ in V.matrix(placement))
         for j in range(0, n, 64):
@@ -596,6 +601,17 @@ def _check_case(case, st):
     k = case["k"]
     st.n("kind:" + k)
     out = []
+    if k == "family":
+        # small dedicated families (mc.gen.ex_families): by-construction verdict + a restricted closure
+        closure = {
+            "shape": ("selection-order", "definition-order", "rename-fragments"),
+            "argument-order": ("argument-order", "selection-order"),
+            "directive-location": ("definition-order",),
+        }[case["family"]]
+        for j, (name, tag, label, c) in enumerate(X.FAMILIES[case["family"]]()):
+            if case["from"] <= j < case["to"]:
+                out.extend(evaluate(name, c, label, tag, st, b, closure))
+        return out
     if k == "var-matrix":
         # variable type x position type over 8 wrappers; expected verdict from the specification's
         # IsVariableUsageAllowed (mc.gen.ex_varmatrix); invalid pairs must be attributed to the rule
